@@ -31,7 +31,7 @@ func runC01(p *Prog, r *Report) {
 	allow := map[string]string{}
 	for _, a := range [][3]string{{"transport", "conn", "Recv"}, {"transport", "connipc", "Recv"}} {
 		if ok, why := sliceWithinNewMessage(p, a[0], a[1], a[2]); ok {
-			allow[a[0]+".(*"+a[1]+").Recv/msg.Body[0:sz]"] = why
+			allow[a[0]+".(*"+a[1]+").Recv/X.Body[0:n]"] = why
 		}
 	}
 	e6dObligations(p, r, "C01.9/E6d", func(rel string) bool { return strings.HasPrefix(rel, "transport") || rel == "internal/core" || rel == "" }, allow)
